@@ -290,6 +290,20 @@ func checkC12(c c12Case) verdict {
 		op   string
 	}
 	var keptParams []keptParam
+	// errors are returned values too: what an error says when it is rendered later (after the caller re-used its buffers)
+	// is what it said when it was returned
+	type keptErr struct {
+		err  error
+		text string
+		step int
+		op   string
+	}
+	var keptErrs []keptErr
+	keepErr := func(err error, step int, op string) {
+		if err != nil {
+			keptErrs = append(keptErrs, keptErr{err, fmt.Sprintf("%v|%+v|%#v", err, err, err), step, op})
+		}
+	}
 	labels := []string{}
 	nt := false
 	for i, st := range c.Steps {
@@ -361,6 +375,7 @@ func checkC12(c c12Case) verdict {
 		switch st.Op {
 		case "GenerateOCRA":
 			code, err := otp.GenerateOCRA(c12Secret, suiteArg, in)
+			keepErr(err, i, "GenerateOCRA")
 			if e := checkPtr(); e != nil {
 				return bad(true, labels, "step %d GenerateOCRA: %v", i, e)
 			}
@@ -372,15 +387,42 @@ func checkC12(c c12Case) verdict {
 			// half of the calls submit the code the reference computes for this very input (an accepting validation
 			// is the path on which a library would "consume" a counter), the rest a wrong code
 			code := "000000"
-			if st.U%2 == 0 {
-				cp := func(b []byte) []byte { return append([]byte(nil), b...) }
+			cp := func(b []byte) []byte { return append([]byte(nil), b...) }
+			switch st.U % 4 {
+			case 0, 2:
 				if want, err := ref.OCRA([]byte(c12Key), st.Cfg, ref.OCRAIn{C: cp(fields[0]), Q: cp(fields[1]), P: cp(fields[2]), S: cp(fields[3]), T: cp(fields[4])}); err == nil {
 					code = want
 				}
+			case 1:
+				// the code of the NEIGHBOURING counter / time step (the 8-byte field plus or minus one): a validator that walks
+				// neighbours by patching the field in place finds this one — and leaves the caller's bytes patched
+				nb := ref.OCRAIn{C: cp(fields[0]), Q: cp(fields[1]), P: cp(fields[2]), S: cp(fields[3]), T: cp(fields[4])}
+				f := &nb.T
+				if !st.Cfg.T || len(nb.T) != 8 || (st.U>>3)%2 == 0 && st.Cfg.C && len(nb.C) == 8 {
+					f = &nb.C
+				}
+				if len(*f) == 8 {
+					d := byte(1)
+					if (st.U>>2)%2 == 0 {
+						d = 0xff
+					}
+					for k := 7; k >= 0; k-- { // add +1 or -1 big-endian
+						(*f)[k] += d
+						if d == 1 && (*f)[k] != 0 || d == 0xff && (*f)[k] != 0xff {
+							break
+						}
+					}
+					if want, err := ref.OCRA([]byte(c12Key), st.Cfg, nb); err == nil {
+						code = want
+						labels = append(labels, "neighbour-step-code")
+					}
+				}
 			}
-			if okk, _ := otp.ValidateOCRA(c12Secret, code, suiteArg, in); okk {
+			okk, verr := otp.ValidateOCRA(c12Secret, code, suiteArg, in)
+			if okk {
 				labels = append(labels, "accepted")
 			}
+			keepErr(verr, i, "ValidateOCRA")
 			if e := checkPtr(); e != nil {
 				return bad(true, labels, "step %d ValidateOCRA: %v", i, e)
 			}
@@ -392,7 +434,7 @@ func checkC12(c c12Case) verdict {
 					x.Password, len(x.Password), cap(x.Password), x.Password == nil, x.SessionInfo, len(x.SessionInfo), cap(x.SessionInfo), x.SessionInfo == nil, x.Timestamp, len(x.Timestamp), cap(x.Timestamp), x.Timestamp == nil)
 			}
 			h0 := hdr(in)
-			_ = in.Validate(lc)
+			keepErr(in.Validate(lc), i, "OCRAInput.Validate")
 			if h1 := hdr(in); h1 != h0 {
 				return bad(true, labels, "step %d: OCRAInput.Validate changed the input struct it was called on (array/len/cap/nil of counter, challenge, password, session, timestamp): %s -> %s", i, h0, h1)
 			}
@@ -679,6 +721,11 @@ func checkC12(c c12Case) verdict {
 		for _, r := range kept {
 			if r.got != r.copy {
 				return bad(true, labels, "a retained %s changed after step %d: %q -> %q", r.what, i, r.copy, r.got)
+			}
+		}
+		for _, k := range keptErrs {
+			if now := fmt.Sprintf("%v|%+v|%#v", k.err, k.err, k.err); now != k.text {
+				return bad(true, labels, "the error %s returned in step %d reads differently after step %d (the caller has re-used its buffers since): %q -> %q", k.op, k.step, i, k.text, now)
 			}
 		}
 		for _, k := range keptParams {
